@@ -10,19 +10,21 @@ cfg=""
 CARGO_NET_OFFLINE=true cargo nextest run --workspace --no-fail-fast $cfg --test-threads 8 --offline > "$OUT/nextest.log" 2>&1
 rc=$?
 rm -rf "$TMPDIR"
-python3 - "$OUT/nextest.log" <<'PY'
-import json,re,sys
-log=open(sys.argv[1]).read()
+cp /repo/target/nextest/pb/junit.xml "$OUT/junit.xml" 2>/dev/null
+python3 - "$OUT/junit.xml" <<'PY'
+import json,sys,xml.etree.ElementTree as ET
 base=json.load(open('/root/.vp/BASELINE.json'))
 stable=set(base['stable_pass'])
 res={}
-for m in re.finditer(r'^\s+(PASS|FAIL|SIGABRT|SIGSEGV|TIMEOUT|LEAK)\s+\[[^\]]*\]\s+(\S+)\s+(\S+)', log, re.M):
-    st, binid, name = m.groups()
-    res[f"{binid}::{name}"]=st
-# names in baseline look like walrus-rust::batch_read::test ; nextest prints "walrus-rust::batch_read test"
-def norm(k): return k
-bad=[t for t in stable if res.get(t) not in ('PASS','LEAK')]
+for tc in ET.parse(sys.argv[1]).getroot().iter('testcase'):
+    tid=(tc.get('classname') or '')+'::'+(tc.get('name') or '')
+    bad=any(ch.tag in ('failure','error') for ch in tc)
+    res[tid]='FAIL' if bad else 'PASS'
+bad=[t for t in stable if res.get(t)!='PASS']
 print("stable tests:",len(stable),"not passing:",len(bad))
 for b in sorted(bad): print("  ",b,res.get(b))
+extra=[t for t,v in res.items() if v=='FAIL' and t not in stable]
+print("failing outside the stable list (baseline flaky/always-fail):",sorted(extra))
+sys.exit(1 if bad else 0)
 PY
-exit $rc
+exit $?
